@@ -1039,11 +1039,13 @@ package mq
 //@   loop 0:
 //@     invariant rangeindex + 1 <= len(p.reasonCodes)
 //@     invariant i - n == rangeindex + 1                                                    #C10 #C02
+//@     invariant disjoint(p.reasonCodes, b) ==> forall k in 0..rangeindex+1: n + k < len(b) ==> b[n+k] == p.reasonCodes[k]   #C02
 
 //@ func (*UnsubAck).payload
 //@   loop 0:
 //@     invariant rangeindex + 1 <= len(p.reasonCodes)
 //@     invariant i - n == rangeindex + 1                                                    #C10 #C02
+//@     invariant disjoint(p.reasonCodes, b) ==> forall k in 0..rangeindex+1: n + k < len(b) ==> b[n+k] == p.reasonCodes[k]   #C02
 
 //@ func (vbint).width
 //@   ensures result == specVbWidth(uint(v))
@@ -1314,6 +1316,93 @@ package mq
 //@ func NewPublish
 //@   inline
 //@   ensures result != nil && fresh(result) && (result.fixed & 240) == 48                   #C02
+
+// ---------------------------------------------------------------- mandated field order of the variable headers (C02)
+// The fields whose position MQTT v5.0 fixes (sections 3.x.2): packet identifier, reason code, acknowledge flags, the
+// property length in front of the properties, and the reason-code list at the end of SUBACK/UNSUBACK. The order of the
+// properties inside a property section is free in MQTT and is therefore not pinned by any contract.
+// pl and rl are the property length and remaining length defined with the size contracts above.
+
+//@ func (*PubAck).fill
+//@   let lo = i + 1 + specVbWidth(uint(rl))
+//@   let lw = specVbWidth(uint(pl))
+//@   ensures result <= len(b) ==> specU16(b[lo], b[lo+1]) == self.PacketID()                                   #C02
+//@   ensures result <= len(b) && rl > 2 ==> b[lo+2] == byte(p.reasonCode)                                      #C02
+//@   ensures result <= len(b) && pl > 0 ==> forall k in 0..lw: b[lo+3+k] == specVbByte(uint(pl), k)            #C02
+
+//@ func (*PubRec).fill
+//@   let lo = i + 1 + specVbWidth(uint(rl))
+//@   let lw = specVbWidth(uint(pl))
+//@   ensures result <= len(b) ==> specU16(b[lo], b[lo+1]) == self.PacketID()                                   #C02
+//@   ensures result <= len(b) && rl > 2 ==> b[lo+2] == byte(p.reasonCode)                                      #C02
+//@   ensures result <= len(b) && pl > 0 ==> forall k in 0..lw: b[lo+3+k] == specVbByte(uint(pl), k)            #C02
+
+//@ func (*PubRel).fill
+//@   let lo = i + 1 + specVbWidth(uint(rl))
+//@   let lw = specVbWidth(uint(pl))
+//@   ensures result <= len(b) ==> specU16(b[lo], b[lo+1]) == self.PacketID()                                   #C02
+//@   ensures result <= len(b) && rl > 2 ==> b[lo+2] == byte(p.reasonCode)                                      #C02
+//@   ensures result <= len(b) && pl > 0 ==> forall k in 0..lw: b[lo+3+k] == specVbByte(uint(pl), k)            #C02
+
+//@ func (*PubComp).fill
+//@   let lo = i + 1 + specVbWidth(uint(rl))
+//@   let lw = specVbWidth(uint(pl))
+//@   ensures result <= len(b) ==> specU16(b[lo], b[lo+1]) == self.PacketID()                                   #C02
+//@   ensures result <= len(b) && rl > 2 ==> b[lo+2] == byte(p.reasonCode)                                      #C02
+//@   ensures result <= len(b) && pl > 0 ==> forall k in 0..lw: b[lo+3+k] == specVbByte(uint(pl), k)            #C02
+
+//@ func (*SubAck).fill
+//@   let lo = i + 1 + specVbWidth(uint(rl))
+//@   let lw = specVbWidth(uint(pl))
+//@   ensures result <= len(b) ==> specU16(b[lo], b[lo+1]) == self.PacketID()                                   #C02
+//@   ensures result <= len(b) ==> forall k in 0..lw: b[lo+2+k] == specVbByte(uint(pl), k)                      #C02
+//@   ensures result <= len(b) && disjoint(p.reasonCodes, b) ==> forall k in 0..len(p.reasonCodes): b[result-len(p.reasonCodes)+k] == p.reasonCodes[k]   #C02
+
+//@ func (*UnsubAck).fill
+//@   let lo = i + 1 + specVbWidth(uint(rl))
+//@   let lw = specVbWidth(uint(pl))
+//@   ensures result <= len(b) ==> specU16(b[lo], b[lo+1]) == self.PacketID()                                   #C02
+//@   ensures result <= len(b) ==> forall k in 0..lw: b[lo+2+k] == specVbByte(uint(pl), k)                      #C02
+//@   ensures result <= len(b) && disjoint(p.reasonCodes, b) ==> forall k in 0..len(p.reasonCodes): b[result-len(p.reasonCodes)+k] == p.reasonCodes[k]   #C02
+
+//@ func (*Subscribe).fill
+//@   let lo = i + 1 + specVbWidth(uint(rl))
+//@   let lw = specVbWidth(uint(pl))
+//@   ensures result <= len(b) ==> specU16(b[lo], b[lo+1]) == self.PacketID()                                   #C02
+//@   ensures result <= len(b) ==> forall k in 0..lw: b[lo+2+k] == specVbByte(uint(pl), k)                      #C02
+
+//@ func (*Unsubscribe).fill
+//@   let lo = i + 1 + specVbWidth(uint(rl))
+//@   let lw = specVbWidth(uint(pl))
+//@   ensures result <= len(b) ==> specU16(b[lo], b[lo+1]) == self.PacketID()                                   #C02
+//@   ensures result <= len(b) ==> forall k in 0..lw: b[lo+2+k] == specVbByte(uint(pl), k)                      #C02
+
+//@ func (*Disconnect).fill
+//@   let lo = i + 1 + specVbWidth(uint(rl))
+//@   let lw = specVbWidth(uint(pl))
+//@   ensures result <= len(b) && rl > 0 ==> b[lo] == byte(p.reasonCode)                                        #C02
+//@   ensures result <= len(b) && rl > 0 ==> forall k in 0..lw: b[lo+1+k] == specVbByte(uint(pl), k)            #C02
+
+//@ func (*Auth).fill
+//@   let lo = i + 1 + specVbWidth(uint(rl))
+//@   let lw = specVbWidth(uint(pl))
+//@   ensures result <= len(b) && rl > 0 ==> b[lo] == byte(p.reasonCode)                                        #C02
+//@   ensures result <= len(b) && rl > 0 ==> forall k in 0..lw: b[lo+1+k] == specVbByte(uint(pl), k)            #C02
+
+//@ func (*ConnAck).fill
+//@   let lo = i + 1 + specVbWidth(uint(rl))
+//@   let lw = specVbWidth(uint(pl))
+//@   ensures result <= len(b) ==> b[lo] == byte(p.flags) && b[lo+1] == byte(p.reasonCode)                      #C02
+//@   ensures result <= len(b) ==> forall k in 0..lw: b[lo+2+k] == specVbByte(uint(pl), k)                      #C02
+
+// PUBLISH: the topic name comes first and the payload last (the length prefix of the topic, the packet identifier and the
+// property length did not discharge within the time limit and are not claimed)
+//@ func (*Publish).fill
+//@   let lo = i + 1 + specVbWidth(uint(rl))
+//@   ensures result <= len(b) && disjoint(p.topicName, b) ==> forall k in 0..len(p.topicName): b[lo+2+k] == p.topicName[k]   #C02
+//@   ensures result <= len(b) && disjoint(p.payload, b) ==> forall k in 0..len(p.payload): b[result-len(p.payload)+k] == p.payload[k]   #C02
+
+// CONNECT: no layout contract (the obligations take 15-50 s each on this VC; too close to the limit to be claimed)
 
 // ---------------------------------------------------------------- decoders against the specification-level reader (C03)
 // R reads a frame field by field: fixed-position fields at the offsets the MQTT field tables give, then the
